@@ -84,6 +84,22 @@ def check(run):
         hits = runoracle.c07_oracle(c, r) + runoracle._abnormal_end(r.get("outcome") or ["?"], "the stream is not delivered to its end")
         for sig, text in hits:
             run.violation(sig, text, {"case": c, "outcome": r.get("outcome")})
+    # Ctrl-C while user threads are alive (oracle only: in-flight code after an interrupt is outside layer 3's fragment): every
+    # step that was started is ended before its test / phase ends, also for an lcc.Thread that finishes after the stop
+    icases = engine.gen_cases(run, 40 if run.tier == "quick" else 800, profile=dict(PROFILE, p_spawn=0.5, script_len=6, p_fail=0.05),
+                              threads=(1, 2, 3), prefix="eint")
+    for c in icases:
+        c["interrupt_at"] = run.rng.randint(0, 12)
+        c["options"]["stop_on_failure"] = False
+    ires = sim.run_cases(icases)
+    for c in icases:
+        r = ires.get(c["id"]) or {"outcome": ["hang", "no result"]}
+        run.evaluations += 1
+        run.count("interrupted_runs_with_user_threads")
+        if any(a[1] == "spawn" for a in (r.get("trace") or [])):
+            run.count("interrupted_runs_in_which_a_user_thread_was_started")
+        for sig, text in runoracle.c07_oracle(c, r):
+            run.violation(sig, text, {"case": c, "outcome": r.get("outcome")})
     run.coverage["rule"] = ("seeded random projects with user threads, empty steps and empty setup phases, 1..4 (thorough ..8) threads, "
                             "random/biased schedules; the stream recorded by a backend registered through the public interface is "
                             "checked against the grammar of DESIGN.md A.1; non-trivial = more than 30 events with more than one thread")
